@@ -20,8 +20,8 @@ def content(cid):
     return {"size": n, "fill": fill, "last": last}
 
 
-def wr(path, cid, mt):
-    return {"op": "write", "path": path, "content": content(cid), "mtime": mt, "m": {"p": path, "c": cid, "mt": mt}}
+def wr(path, cid, mt, real=None):
+    return {"op": "write", "path": real or path, "content": content(cid), "mtime": mt, "m": {"p": path, "c": cid, "mt": mt}}
 
 
 def cmdwr(valfile, key, v):
@@ -127,24 +127,29 @@ targets:
       - cmd_stdout: cat v.val
     build: 'true'
 """
+# sub/gen/lib.o is a symbolic link to sub/real/lib.o.1 (not itself matched): writes to the real file are changes of the link
 
 
 def tmpl_multi(rng):
     # identical relative paths (data/..) and identical command text (cat v.val) in both project directories
     p_in = ["sub/data/x.txt"]
-    p_out = ["sub/gen/a.o", "sub/gen/deep/b.o", "CMD:sub:cat v.val"]
+    p_out = ["sub/gen/a.o", "sub/gen/deep/b.o", "sub/gen/lib.o", "CMD:sub:cat v.val"]
     c_in = ["data/x.txt", "CMD:.:cat v.val"] + p_out
     model = {"paths": p_in + p_out + c_in[:2] + ["c.out", "sub/gen/readme.md", "gen/a.o"],
              "targets": {"p": {"inp": p_in, "out": p_out, "hasInput": True},
                          "c": {"inp": c_in, "out": ["c.out"], "hasInput": True}},
              "focus": ["C13"]}
     return {"files": {"zinoma.yml": T_ROOT, "sub/zinoma.yml": T_SUB}, "model": model,
-            "members": ["data/x.txt", "sub/data/x.txt", "sub/gen/a.o", "sub/gen/deep/b.o"],
+            "members": ["data/x.txt", "sub/data/x.txt", "sub/gen/a.o", "sub/gen/deep/b.o", "sub/gen/lib.o"],
+            "real": {"sub/gen/lib.o": "sub/real/lib.o.1"},
+            "setup": [{"op": "symlink", "path": "sub/gen/lib.o", "to": "../real/lib.o.1", "m": {}},
+                      {"op": "symlink", "path": "sublink", "to": "sub", "m": {}}],
             "others": ["sub/gen/readme.md", "gen/a.o"],
             "cmds": {"CMD:.:cat v.val": "v.val", "CMD:sub:cat v.val": "sub/v.val"}, "cmd_in": ["CMD:.:cat v.val", "CMD:sub:cat v.val"],
-            "outs": {"p": ["sub/gen/a.o", "sub/gen/deep/b.o"], "c": ["c.out"]}, "cmd_out": {"p": ["CMD:sub:cat v.val"]},
+            "outs": {"p": ["sub/gen/a.o", "sub/gen/deep/b.o", "sub/gen/lib.o"], "c": ["c.out"]}, "cmd_out": {"p": ["CMD:sub:cat v.val"]},
             "targets": ["p", "c"],
-            "inv": {"p": [dict(entry=".", name="sub::p"), dict(entry="sub", name="p"), dict(entry="sub", name="sub::p")],
+            "inv": {"p": [dict(entry=".", name="sub::p"), dict(entry="sub", name="p"), dict(entry="sub", name="sub::p"),
+                          dict(entry="sub/../sub", name="p"), dict(entry="sublink", name="p"), dict(entry="data/../sub/./", name="sub::p")],
                     "c": dict(entry=".", name="c")},
             "state": {"p": ("sub", "sub::p"), "c": (".", "c")}}
 
@@ -179,17 +184,58 @@ def tmpl_names(rng):
             "state": {k: (".", k) for k in ("t", "gen", "gen-docs")}}
 
 
-TEMPLATES = [("single", tmpl_single, 4), ("cmd", tmpl_cmd, 2), ("multi", tmpl_multi, 3), ("names", tmpl_names, 2)]
+T_DUP = """targets:
+  p:
+    input:
+      - paths: [p.in]
+    output:
+      - cmd_stdout: cat tool.ver
+    build: 'true'
+  q:
+    input:
+      - paths: [q.in]
+    output:
+      - cmd_stdout: cat tool.ver
+      - paths: [q.out]
+    build: 'true'
+  c:
+    input:
+      - p.output
+      - q.output
+      - cmd_stdout: cat tool.ver
+      - paths: [q.out]
+    output:
+      - paths: [c.out]
+    build: 'true'
+"""
+
+
+def tmpl_dup(rng):
+    # the same (directory, command) resource and the same path reach the consumer several times
+    model = {"paths": ["p.in", "q.in", "q.out", "c.out", "CMD:.:cat tool.ver", "x.txt"],
+             "targets": {"p": {"inp": ["p.in"], "out": ["CMD:.:cat tool.ver"], "hasInput": True},
+                         "q": {"inp": ["q.in"], "out": ["CMD:.:cat tool.ver", "q.out"], "hasInput": True},
+                         "c": {"inp": ["CMD:.:cat tool.ver", "q.out"], "out": ["c.out"], "hasInput": True}},
+             "focus": ["C13"]}
+    return {"files": {"zinoma.yml": T_DUP}, "model": model, "members": ["p.in", "q.in", "q.out"], "others": ["x.txt"],
+            "cmds": {"CMD:.:cat tool.ver": "tool.ver"}, "cmd_in": ["CMD:.:cat tool.ver"],
+            "outs": {"p": [], "q": ["q.out"], "c": ["c.out"]}, "cmd_out": {"p": ["CMD:.:cat tool.ver"], "q": ["CMD:.:cat tool.ver"]},
+            "targets": ["p", "q", "c"], "inv": {k: dict(entry=".", name=k) for k in ("p", "q", "c")},
+            "state": {k: (".", k) for k in ("p", "q", "c")}}
+
+
+TEMPLATES = [("single", tmpl_single, 4), ("cmd", tmpl_cmd, 2), ("multi", tmpl_multi, 4), ("names", tmpl_names, 2), ("dup", tmpl_dup, 2)]
 
 
 def gen_history(rng, hid, tname, T, nops, faults=True):
-    ops = []
+    ops = list(T.get("setup", []))
     mt = {}
+    real = T.get("real", {})
     # initial population
     for p in T["members"] + T["others"]:
         if rng.random() < 0.8:
             c, m = rng.choice(list(CONTENTS)), rng.randint(0, 5)
-            ops.append(wr(p, c, m))
+            ops.append(wr(p, c, m, real.get(p)))
     for key, vf in T.get("cmds", {}).items():
         ops.append(cmdwr(vf, key, rng.randint(0, 3)))
     built = set()
@@ -211,9 +257,9 @@ def gen_history(rng, hid, tname, T, nops, faults=True):
                     crash = rng.choice(CRASHES)
             writes = []
             for o in T["outs"].get(t, []):
-                if rng.random() < 0.7:
+                if rng.random() < 0.7 and o not in real:
                     writes.append((o, rng.choice(list(CONTENTS)), rng.randint(0, 9)))
-            deletes = [o for o in T["outs"].get(t, []) if rng.random() < 0.1 and not any(w[0] == o for w in writes)]
+            deletes = [o for o in T["outs"].get(t, []) if rng.random() < 0.1 and not any(w[0] == o for w in writes) and o not in real]
             op = invoke(t, entry=iv["entry"], name=iv["name"], outcome=outcome, writes=writes, deletes=deletes, crash=crash)
             ops.append(op)
             # a command output the script "regenerates"
@@ -224,15 +270,15 @@ def gen_history(rng, hid, tname, T, nops, faults=True):
         elif r < 0.72:
             p = rng.choice(T["members"] + T["others"] + [o for os_ in T["outs"].values() for o in os_])
             kind = rng.random()
-            if kind < 0.2:
+            if kind < 0.2 and p not in real:
                 ops.append(rm(p))
             else:
-                ops.append(wr(p, rng.choice(list(CONTENTS)), rng.randint(0, 9)))
+                ops.append(wr(p, rng.choice(list(CONTENTS)), rng.randint(0, 9), real.get(p)))
         elif r < 0.8 and T.get("cmds"):
             key = rng.choice(list(T["cmds"]))
             ops.append(cmdwr(T["cmds"][key], key, rng.randint(0, 3)))
         elif r < 0.86:
-            a, b = rng.sample(T["members"] + T["others"], 2)
+            a, b = rng.sample([x for x in T["members"] + T["others"] if x not in real], 2)
             ops.append(mv(a, b))
         elif faults and built:
             t = rng.choice(sorted(built))
